@@ -170,11 +170,19 @@ impl GrpLens {
                 res_of(&r)
             }
             "disconnect" => {
-                if let Some((cl, _)) = run.members[c].take() {
+                if let Some((cl, old_id)) = run.members[c].take() {
                     let inc = run.inc.as_ref().unwrap();
                     let _ = inc.rt.block_on(Client::disconnect(&cl));
                     drop(cl);
-                    inc.rt.block_on(async { tokio::time::sleep(std::time::Duration::from_millis(10)).await });
+                    // wait until the server has removed the client (see cat_lens): no fixed pause
+                    if let Some(a) = run.admin.as_ref() {
+                        for _ in 0..4000 {
+                            inc.rt.block_on(async { tokio::time::sleep(std::time::Duration::from_millis(2)).await });
+                            if matches!(inc.rt.block_on(iggy::client::SystemClient::get_client(a, old_id)), Ok(None)) {
+                                break;
+                            }
+                        }
+                    }
                 }
                 self.connect_member(run, c)?;
                 "ok".to_string()
